@@ -123,3 +123,7 @@ mod ack_settings_tests {
         }
     }
 }
+
+#[cfg(all(aws_s2n_quic_verif, test))]
+#[path = "/verif/harness/core/ack_settings.rs"]
+mod verif;
